@@ -595,6 +595,13 @@ def subscript(interp, base: V, idx: V, node) -> Optional[V]:
                 s = slice(*[None if (isinstance(x, Const) and x.v is None) else int(x.p.as_const()) for x in (lo, hi, st)])
                 return TupleV(base.items[s])
             except Exception:
+                n_ = Poly.const(len(base.items))
+                none = lambda x: isinstance(x, Const) and x.v is None
+                # [:hi] with hi >= len  /  [-k:] with k >= len : the whole tuple
+                if none(st) and none(lo) and isinstance(hi, Num) and interp.decide(CondV("cmp", ">=", hi.p, n_)) is True:
+                    return base
+                if none(st) and none(hi) and isinstance(lo, Num) and interp.decide(CondV("cmp", "<=", lo.p, -n_)) is True:
+                    return base
                 return Top("tuple slice")
         return Term("item", [base, idx])
     if isinstance(base, Const) and isinstance(base.v, (tuple, str)):
